@@ -1,7 +1,7 @@
 (* C06 -- a crop attached to a Runner, Harvester or Sampler reaps what a direct run gives. *)
 From XV Require Import Prelude Grid Perm Runner Batch Crop Label Farmer GenFarmer BridgeFarmer
      Names Harvest GridProofs PermProofs RunnerProofs BatchProofs AssocProofs CropProofs ReapProofs HarvestProofs.
-From XV Require CrashFS GenCrash BridgeCrash.
+From XV Require CrashFS GenCrash BridgeCrash Stages GenStages BridgeStages.
 Open Scope Z_scope.
 
 (* the labelled-output description reaching the Dataset / DataFrame builder through a crop
@@ -76,6 +76,12 @@ Theorem C06_function_written_on_every_sow :
   CrashFS.cs_prepare GenCrash.gen_shape = [CrashFS.PDirs; CrashFS.PFunction; CrashFS.PSettings].
 Proof. rewrite BridgeCrash.bridge_shape. reflexivity. Qed.
 
+(* the description a reap works from is read from the settings file at that moment (load_info keeps no copy
+   on the Crop object), so a re-sow through the same object is seen by the next reap *)
+Theorem C06_description_read_at_reap : GenStages.gen_info_read_from_disk_each_time = true.
+Proof. exact BridgeStages.bridge_info_from_disk. Qed.
+
+Print Assumptions C06_description_read_at_reap.
 Print Assumptions C06_function_written_on_every_sow.
 Print Assumptions C06_default_policy_agrees.
 Print Assumptions C06_same_description.
